@@ -102,7 +102,8 @@ PAIR_GROUPS = [
      lambda k: k["impl"] in ("IdentityLinearOperator.matmul", "flipped:IdentityLinearOperator.matmul") and k["op"] in c19.MATMUL_LIKE,
      ("impl", "op", "shape_class"), None, None),
     ("diag-matmul-elementwise",
-     lambda k: k["impl"] in ("DiagLinearOperator.matmul", "ConstantDiagLinearOperator.matmul") and k["op"] in c19.MATMUL_LIKE,
+     lambda k: k["impl"].replace("flipped:", "") in ("DiagLinearOperator.matmul", "ConstantDiagLinearOperator.matmul")
+     and k["op"] in c19.MATMUL_LIKE,
      ("impl", "op", "rhs_class", "shape_class"), None, None),
     ("interpolated-matmul-diag",
      lambda k: k["impl"] == "InterpolatedLinearOperator.matmul" and k["op"] in ("matmul_op", "torch_matmul")
@@ -174,7 +175,8 @@ def main(write):
     total = 0
     for slug in sorted(files):
         what, repro = texts[slug]
-        ents = sorted(files[slug], key=lambda x: ("impl" in x[0], x[0]["shape_class"] not in pref_kind, x[0]["op"] not in pref_op,
+        ents = sorted(files[slug], key=lambda x: ("impl" in x[0], "derive" in x[1]["case"],
+                                                  x[0]["shape_class"] not in pref_kind, x[0]["op"] not in pref_op,
                                                   len(x[0].get("class", "")), json.dumps(x[0], sort_keys=True)))
         out = []
         seen = set()
